@@ -36,9 +36,16 @@ CHECKS['C03'] = dict(
          'has_priority_over and _replace_self/_replace_other are tied EXHAUSTIVELY (T2) to the real functions; the tree recursion by sampled correspondence on '
          'priority-tagged histories. C03_container_priority_applies_below (on the loader model: every node below a node whose effective tag priority is p '
          'has priority p, at any depth, whatever priority tags are written below; the loader model is tied to the real loader on priority-tagged documents). '
-         'Partial: the lift from the per-path writer sequence to whole nested documents (C03_spine) is carried by the correspondence and the latest-argmax oracle, not yet by a theorem.',
+         'THE WHOLE MERGE AS A REFINEMENT (Spec/UpdateP.upd_p: two mappings merge key by key and the result carries the higher priority; otherwise the older value survives iff its priority is '
+         'strictly higher): C03_priorities_refine - for any number of mapping documents whose scalars and enclosing mappings carry arbitrary !force/!weak/!metadata{{priority}} tags '
+         '(no !del/!new marks, no lists), Builder.flatten succeeds and builds exactly the left fold of upd_p over the documents\' priority images (values AND priorities of all nodes; '
+         'induction on the fuel, loop lemma loop_dict_z, invariants OldZ/NewZ); C03_every_leaf_path_latest_of_highest - at every path whose spine is mappings in every document, the merged '
+         'value is that of the latest document among those of highest priority there (pre <= W > post), nothing if nobody writes it; C03_update_is_pointwise; C03_prediction_sound / '
+         'C03_document_prediction_sound (the class is decidable; the correspondence runs the sound checker on the trees the real loader built and on the documents as written and compares the '
+         'predicted tree with Builder.build: a value difference is a concrete failing input). Outside the class (lists with priorities - known findings D18/D5 live there -, !del/!new marks, '
+         'dynamic nodes) the statement stays with the sampled merge correspondence and the latest-argmax / exact-metadata oracle.',
     design='4 (C03)',
-    technique='Coq proofs about the fold of the leaf rule (latest argmax) + exhaustive vm_compute correspondence of the priority logic + sampled merge correspondence; Python latest-argmax oracle for replays')
+    technique='Coq refinement proof (merge of prioritised mapping documents = fold of the reference update upd_p; per-path latest-argmax corollary) + exhaustive vm_compute correspondence of the priority logic + sampled correspondence of model, loader model and specification with Builder.build; Python latest-argmax / metadata oracle for replays')
 
 CHECKS['C04'] = dict(
     text='Machine-checked: C04_exact / C04_exact_list (for ALL older trees - any depth, flags, key names - and all newer containers: if the newer node deletes, no older descendant '
